@@ -20,6 +20,9 @@ func (in *Interp) binop(op token.Token, x, y Value, xt, yt types.Type) Value {
 	if _, ok := y.(*UnionVal); ok {
 		return in.mapAlts(y, func(v Value) Value { return in.binop(op, x, v, xt, yt) })
 	}
+	if r, ok := in.realBinop(op, x, y); ok {
+		return r
+	}
 	switch op {
 	case token.EQL:
 		return in.equal(x, y)
@@ -238,6 +241,13 @@ func (in *Interp) equal(x, y Value) *smt.Term {
 	if _, ok := y.(*UnionVal); ok {
 		return in.equal(y, x)
 	}
+	if isRealTerm(x) || isRealTerm(y) {
+		a, ok1 := in.realOf(x)
+		b, ok2 := in.realOf(y)
+		if ok1 && ok2 {
+			return st.Eq(a, b)
+		}
+	}
 	switch a := x.(type) {
 	case *smt.Term:
 		if b, ok := y.(*smt.Term); ok && a.W == b.W {
@@ -330,6 +340,9 @@ func (in *Interp) unop(i *ssa.UnOp, x Value) Value {
 		case token.NOT:
 			return in.St.Not(a)
 		case token.SUB:
+			if a.IsReal() {
+				return in.St.RNeg(a)
+			}
 			return in.St.BvNeg(a)
 		case token.XOR:
 			return in.St.BvNot(a)
@@ -351,6 +364,9 @@ func (in *Interp) convert(x Value, from, to types.Type) Value {
 	_ = tsigned
 	switch a := x.(type) {
 	case *smt.Term:
+		if a.IsReal() && isFloat(to) {
+			return a // float32 <-> float64 of an exact real: rounding not modelled
+		}
 		if fint && tint && fw > 0 && tw > 0 {
 			return in.St.Resize(a, tw, fsigned)
 		}
